@@ -162,6 +162,12 @@ class HedGroup:
         string_copy._sorted(update_self=True)
         return string_copy
 
+    @staticmethod
+    def _sorted_key(sorted_children):
+        """ Return a string key for the nested list returned by _sorted. """
+        return "(" + ",".join(HedGroup._sorted_key(child) if isinstance(child, list) else str(child)
+                              for child in sorted_children) + ")"
+
     def _sorted(self, update_self=False):
         """ Return a sorted copy of this HED group as a list of it's children.
 
@@ -180,8 +186,10 @@ class HedGroup:
             else:
                 group_list.append((child, child._sorted(update_self)))
 
+        # Sort sub-groups by their SORTED content, so that equal groups end up adjacent whatever the order
+        # of their members.
         tag_list.sort(key=lambda x: str(x[0]))
-        group_list.sort(key=lambda x: str(x[0]))
+        group_list.sort(key=lambda x: (self._sorted_key(x[1]), str(x[0])))
         output_list = tag_list + group_list
         if update_self:
             self.children = [x[0] for x in output_list]
